@@ -624,6 +624,18 @@ func c37Jobs() []c37Job {
 			}
 		}
 	}
+	// multipart path with exactly one attribute set (the single-part and the multipart adapters
+	// decide separately whether to pass options at all)
+	for _, c := range []c37Combo{
+		{name: "only class", class: "GLACIER"},
+		{name: "only tags", tags: map[string]string{"k": "v"}},
+		{name: "only user metadata", user: map[string]string{"a": "1"}},
+		{name: "only cache-control", sys: map[string]string{"cache-control": "no-cache"}},
+		{name: "only content type", ct: c37Ptr("text/plain")},
+	} {
+		src := c37State{Name: fmt.Sprintf("bka{big:%dB} %s", 5*c37MiB+1, c.name), Buckets: []c37Bucket{{Name: "bka", Objs: []c37Obj{c.obj("big", 5*c37MiB+1, 60)}}}}
+		add(world.StackFS, world.StackFS, src, c37DstStates([]string{"bka"})[:1])
+	}
 	if !quick() {
 		// more objects than one ListObjects page (1000) of the migrator's bucket listing
 		many := c37State{Name: "bka{1001 objects of 0..2 bytes}", Buckets: []c37Bucket{{Name: "bka"}}}
